@@ -2,6 +2,7 @@
 from common import *
 
 
+@guarded
 def check(r, notes, extras, values, dne):
     inp = {"notes": notes, "extras": extras, "values": values, "do_not_extend": dne}
     ev = []
